@@ -770,6 +770,20 @@ pub fn is_missing_reference(p: &Primitive, e: &PdfError) -> bool {
     }
 }
 
+/// Resolve the value of an optional entry: null, and a reference to a missing object, are `None`.
+pub fn resolve_optional(p: Primitive, resolve: &impl Resolve) -> Result<Option<Primitive>> {
+    match p {
+        Primitive::Null => Ok(None),
+        Primitive::Reference(id) => match resolve.resolve(id) {
+            Ok(Primitive::Null) => Ok(None),
+            Ok(p) => Ok(Some(p)),
+            Err(ref e) if is_missing_reference(&p, e) => Ok(None),
+            Err(e) => Err(e)
+        },
+        p => Ok(Some(p))
+    }
+}
+
 impl<T: Object> Object for Option<T> {
     fn from_primitive(p: Primitive, resolve: &impl Resolve) -> Result<Self> {
         match p {
